@@ -190,6 +190,7 @@ def run(ck, only=None):
     if not only or only.get("cxx"):
         cxx_rules(ck)
         excluded_types(ck)
+        non_recursive(ck)
     ck.assume("the specification is deliberately three-valued: anything the property does not constrain (non-plain attributes, mixed "
               "members, trait dependencies such as Eq without PartialEq) is FREE; enum members are integers under the default enum style")
 
@@ -350,6 +351,51 @@ def excluded_types(ck):
                 ck.violation(f"excluded type={path} option={opt} namespaces={nsmode} control-lost trait={tr}",
                              {"excl": True, "why": f"`{opt} {path}` removed {tr} from the unrelated type {ctl}"})
     ck.extra["exclusion_runs"] = len(jobs)
+
+
+NOREC_H = """struct sample { double _Complex z; int n; };
+struct lanes { int v __attribute__((vector_size(16))); char tag; };
+struct scalars { int a; float f; unsigned long u; };
+typedef int myint; struct with_td { myint m; };
+enum en { EN_A }; struct with_enum { enum en e; };
+struct with_fp { int (*cb)(int); void *p; };
+struct with_arr { short a[4]; char b[2][3]; };
+"""
+
+
+def non_recursive(ck):
+    """Under --no-recursive-allowlist only what matches is emitted, but the member types the language itself provides (scalars,
+    _Complex, vectors, arrays, pointers, function pointers) need no definition: a plain-data record keeps every trait it gets in
+    the full bindings."""
+    wd = os.path.join(ck.wd, "norec")
+    os.makedirs(wd, exist_ok=True)
+    hp = os.path.join(wd, "norec.h")
+    open(hp, "w").write(NOREC_H)
+    base = [hp, "--formatter", "none", "--no-layout-tests", "--with-derive-default", "--with-derive-hash", "--with-derive-partialeq", "--with-derive-partialord"]
+    names = ["sample", "lanes", "scalars", "with_fp", "with_arr"]
+    jobs = [{"id": "full", "args": base, "inventory": True, "text": False}]
+    for n in names:
+        jobs.append({"id": n, "args": base + ["--allowlist-type", n, "--no-recursive-allowlist"], "inventory": True, "text": False})
+    jobs.append({"id": "all", "args": base + ["--allowlist-type", "|".join(names), "--no-recursive-allowlist"], "inventory": True, "text": False})
+    res = common.run_jobs(jobs, wd, timeout=60)
+    common.guard(res["full"]["status"] == "ok", "C08 no-recursive header failed to generate")
+    full, _ = derive_view(res["full"]["inventory"])
+    for jid, r in res.items():
+        if jid == "full":
+            continue
+        ck.count()
+        ck.nontriv(("norec", jid))
+        if r["status"] != "ok":
+            ck.violation(f"no-recursive-allowlist case={jid} generation-failed", {"norec": True, "why": str(r)[:200]})
+            continue
+        dv, impls = derive_view(r["inventory"])
+        for n in (names if jid == "all" else [jid]):
+            if n not in dv:
+                ck.violation(f"no-recursive-allowlist case={jid} type={n} missing", {"norec": True, "why": f"{n} matches the allowlist but is not emitted"})
+            elif set(dv[n][0]) != set(full[n][0]):
+                ck.violation(f"no-recursive-allowlist case={jid} type={n} derives-differ", {"norec": True,
+                             "why": f"{n} derives {sorted(dv[n][0])} under --no-recursive-allowlist and {sorted(full[n][0])} in the full bindings; every member type is provided by the language"})
+    ck.extra["no_recursive_runs"] = len(jobs) - 1
 
 
 BEHAVIOUR_RS = r'''
